@@ -215,7 +215,7 @@ class AbstractSegmenter(object):
         self.diphones = Counter()
 
         self.pwb = pwb
-        if self.pwb and (self.pwb < 0 or self.pwb > 1):
+        if self.pwb is not None and (self.pwb < 0 or self.pwb > 1):
             raise ValueError(
                 'pwb must be a float in [0, 1], it is: {}'
                 .format(str(self.pwb)))
@@ -288,7 +288,7 @@ class PhrasalSegmenter(AbstractSegmenter):
         p_2y = self._norm2pdf(self.summary.phrase_initial)
         pxy = self._norm2pdf(self.summary.diphones)
 
-        pwb = self.pwb or self._pwb()
+        pwb = self.pwb if self.pwb is not None else self._pwb()
         self.log.info('phrasal pwb = %s', pwb)
 
         for d in self.summary.diphones:
@@ -314,7 +314,7 @@ class LexicalSegmenter(AbstractSegmenter):
         p_2y = self._norm2pdf(word_initial)
         pxy = self._norm2pdf(self.summary.diphones)
 
-        pwb = self.pwb or self._pwb()
+        pwb = self.pwb if self.pwb is not None else self._pwb()
         self.log.info('lexical pwb = %s', pwb)
 
         for d in self.summary.diphones:
